@@ -313,10 +313,10 @@ StoreFold(c, tid, seq, st) ==
 
 Store ==
   /\ txn.who = "c1" /\ txn.phase = "begun"
-  /\ LET c == Flush(con)
-         st == StoreFold(c, txn.tid, StoreSeq(c),
-                         [staged |-> <<>>, files |-> files, dirty |-> dirty, leak |-> leak, fail |-> FALSE, done |-> {}])
-     IN /\ files' = st.files /\ dirty' = st.dirty /\ leak' = st.leak
+  /\ \E c \in {Flush(con)} :
+     \E st \in {StoreFold(c, txn.tid, StoreSeq(c),
+                          [staged |-> <<>>, files |-> files, dirty |-> dirty, leak |-> leak, fail |-> FALSE, done |-> {}])} :
+        /\ files' = st.files /\ dirty' = st.dirty /\ leak' = st.leak
         /\ txn' = [txn EXCEPT !.phase = IF st.fail THEN "failed" ELSE "stored", !.staged = st.staged]
         /\ con' = [c EXCEPT !.work = IF c.spon THEN <<>> ELSE Drop(@, st.done), !.spfile = <<>>, !.spon = FALSE]
         /\ res' = IF st.fail THEN Out("commit", "ConflictError") ELSE OK("commit")
@@ -427,18 +427,20 @@ UStore ==
   /\ txn.who = "undo" /\ txn.phase = "begun"
   /\ LET i == TidPos(hist, txn.target)
          oids == {hist[i].recs[j].oid : j \in 1..Len(hist[i].recs)}
-         fails == {o \in oids : UndoKind(hist, i, o) = "fail"}
-         \* "We're undoing a blob modification operation.  We have to copy the blob data"
-         copies == {o \in oids \cap Blobs : UndoKind(hist, i, o) = "back" /\ HolderTid(hist, PrevPos(hist, i, o), o) # 0}
-         src(o) == <<o, HolderTid(hist, PrevPos(hist, i, o), o)>>
-     IN /\ \A o \in copies : src(o) \in DOMAIN files
-        /\ files' = [k \in (DOMAIN files) \cup {<<o, txn.tid>> : o \in copies} |->
-                       IF k[2] = txn.tid /\ k[1] \in copies
-                       THEN [c |-> files[src(k[1])].c, w |-> files[src(k[1])].w, ro |-> TRUE]
-                       ELSE files[k]]
-        /\ dirty' = dirty \cup {<<o, txn.tid>> : o \in copies}
-        /\ txn' = [txn EXCEPT !.phase = IF fails = {} THEN "stored" ELSE "failed", !.staged = UndoRecs(hist, i, 1)]
-        /\ res' = IF fails = {} THEN OK("commit") ELSE Out("commit", "UndoError")
+     IN \E kind \in {[o \in oids |-> UndoKind(hist, i, o)]} :
+        \* "We're undoing a blob modification operation.  We have to copy the blob data"
+        \E src \in {[o \in {o \in oids \cap Blobs : kind[o] = "back" /\ HolderTid(hist, PrevPos(hist, i, o), o) # 0} |->
+                       <<o, HolderTid(hist, PrevPos(hist, i, o), o)>>]} :
+        LET fails == {o \in oids : kind[o] = "fail"}
+            copies == DOMAIN src
+        IN /\ \A o \in copies : src[o] \in DOMAIN files
+           /\ files' = [k \in (DOMAIN files) \cup {<<o, txn.tid>> : o \in copies} |->
+                          IF k[2] = txn.tid /\ k[1] \in copies
+                          THEN [c |-> files[src[k[1]]].c, w |-> files[src[k[1]]].w, ro |-> TRUE]
+                          ELSE files[k]]
+           /\ dirty' = dirty \cup {<<o, txn.tid>> : o \in copies}
+           /\ txn' = [txn EXCEPT !.phase = IF fails = {} THEN "stored" ELSE "failed", !.staged = UndoRecs(hist, i, 1)]
+           /\ res' = IF fails = {} THEN OK("commit") ELSE Out("commit", "UndoError")
   /\ UNCHANGED <<hist, old, leak, clk, packed, con, nextb, aborted>> /\ DerivedCon
 UStoreOK == UStore /\ txn'.phase = "stored"
 UStoreFail == UStore /\ txn'.phase = "failed"
@@ -457,19 +459,21 @@ NewestOnly(F, H2) ==
 \* wrapper, repaired: keep the files of the revisions that still load (loadSerial), as _packUndoing does
 LoadableOnly(F, H2) == [k \in {k \in DOMAIN F : k \in BlobRevsOf(H2)} |-> F[k]]
 
+\* (\E x \in {e} makes TLC evaluate e once; a LET definition is re-evaluated at every use in an action)
 Pack(T) ==
   /\ Idle /\ IsClean(con) /\ T \in 1..clk
-  /\ LET r == IF IsMixin THEN FilePack(hist, T, TRUE) ELSE MappingPack(hist, T, TRUE, packed[2])
-         done == r.out = "ok"
-     IN /\ hist' = r.h
-        /\ files' = IF IsMixin THEN (IF done THEN MixinPackFiles(files, hist, r.h) ELSE files)
-                    ELSE IF r.out \in {"ok", "same-time"}
-                         THEN (IF NonUndoPack THEN NewestOnly(files, r.h) ELSE LoadableOnly(files, r.h))
-                         ELSE files
+  /\ \E r \in {IF IsMixin THEN FilePack(hist, T, TRUE) ELSE MappingPack(hist, T, TRUE, packed[2])} :
+     LET done == r.out = "ok" IN
+     \E nf \in {IF IsMixin THEN (IF done THEN MixinPackFiles(files, hist, r.h) ELSE files)
+                 ELSE IF r.out \in {"ok", "same-time"}
+                      THEN (IF NonUndoPack THEN NewestOnly(files, r.h) ELSE LoadableOnly(files, r.h))
+                      ELSE files} :
+        /\ hist' = r.h
+        /\ files' = nf
         /\ old' = IF IsMixin /\ KeepOld /\ done THEN files ELSE <<>>
         /\ packed' = <<IF done /\ T > packed[1] THEN T ELSE packed[1], IF ~IsMixin /\ done THEN T ELSE packed[2]>>
         /\ res' = Out("pack", r.out)
-        /\ con' = FreshCon(hist', files', LastTid(r.h))
+        /\ con' = FreshCon(r.h, nf, LastTid(r.h))
   /\ UNCHANGED <<dirty, leak, clk, txn, nextb, aborted>> /\ DerivedAll
 
 (* ---------------------------------- next -------------------------------- *)
